@@ -50,14 +50,51 @@ def build_model(group):
 _KEY = re.compile(r"<<(\d+), (\d+), (\d+)>>")
 
 
-def _run_group(group, header, delta, stiff_idx, backend, workdir):
+def _run_group_batch(group, header, delta, stiff_idx, workdir, schemes=None):
+    """C14: one call per (scheme, dt) with all (x, a) grid points as columns; per-column parameters and time."""
+    from . import gx, modelcase
+    import numpy as np
+
+    n = len(group)
+    ode = gx.load(build_model(group))
+    stiff = [f"s{j}" for j in stiff_idx] + ["not_a_state"]
+    schemes = schemes or modelcase.SCHEMES
+    mod = modelcase.NumpyMod(ode, schemes, delta=float(delta), stiff_states=stiff)
+    out = {j: {} for j in range(n)}
+    keys = list(group[0]["grid"].keys())
+    parsed = [tuple(map(int, _KEY.match(k).groups())) for k in keys]
+    for di in sorted({p[2] for p in parsed}):
+        cols = [(k, p) for k, p in zip(keys, parsed) if p[2] == di]
+        K = len(cols)
+        S = np.zeros((n + 1, K))
+        P = np.zeros((1, K))
+        for c, (k, (xi, ai, _)) in enumerate(cols):
+            S[mod.index("state", "y"), c] = qf(header["y"])
+            for j in range(n):
+                S[mod.index("state", f"s{j}"), c] = qf(header["xs"][xi - 1])
+            P[0, c] = qf(header["as"][ai - 1])
+        dt = qf(header["dts"][di - 1])
+        t = np.zeros(K)
+        for sc in schemes:
+            with gx.quiet_np():
+                vals = np.asarray(mod.ns[sc](S.copy(), t, dt, P.copy()))
+            if vals.shape != (n + 1, K):
+                raise ValueError(f"{sc}: result shape {vals.shape}, expected {(n + 1, K)}")
+            for c, (k, _) in enumerate(cols):
+                for j in range(n):
+                    out[j].setdefault(k, {})[sc] = float(vals[mod.index("state", f"s{j}"), c])
+    return out
+
+
+def _run_group(group, header, delta, stiff_idx, backend, workdir, schemes=None):
     """Returns {j: {key: {"explicit_euler": v, "generalized_rush_larsen": v, "hybrid_rush_larsen": v}}}"""
     from . import gx, modelcase
 
     n = len(group)
     ode = gx.load(build_model(group))
     stiff = [f"s{j}" for j in stiff_idx] + ["not_a_state"]
-    mod = modelcase.make_mod(backend, ode, modelcase.SCHEMES, workdir=workdir, delta=float(delta), stiff_states=stiff)
+    schemes = schemes or modelcase.SCHEMES
+    mod = modelcase.make_mod(backend, ode, schemes, workdir=workdir, delta=float(delta), stiff_states=stiff)
     out = {j: {} for j in range(n)}
     try:
         keys = list(group[0]["grid"].keys())
@@ -69,7 +106,7 @@ def _run_group(group, header, delta, stiff_idx, backend, workdir):
                 s[mod.index("state", f"s{j}")] = qf(header["xs"][xi - 1])
             p = [qf(header["as"][ai - 1])]
             dt = qf(header["dts"][di - 1])
-            for sc in modelcase.SCHEMES:
+            for sc in schemes:
                 vals, _ = mod.call(sc, 0.0, s, p, dt)
                 for j in range(n):
                     out[j].setdefault(key, {})[sc] = vals[mod.index("state", f"s{j}")]
@@ -79,7 +116,7 @@ def _run_group(group, header, delta, stiff_idx, backend, workdir):
 
 
 def _worker(args):
-    group, header, delta, stiff_idx, backend, workdir = args
+    group, header, delta, stiff_idx, backend, workdir, schemes = args
     res = {"values": {}, "errors": []}
 
     def split(ix):
@@ -88,7 +125,10 @@ def _worker(args):
         try:
             sub = [group[i] for i in ix]
             st = [k for k, i in enumerate(ix) if i in stiff_idx]
-            vals = _run_group(sub, header, delta, st, backend, workdir)
+            if backend == "numpy-batch":
+                vals = _run_group_batch(sub, header, delta, st, workdir, schemes)
+            else:
+                vals = _run_group(sub, header, delta, st, backend, workdir, schemes)
             for k, i in enumerate(ix):
                 res["values"][i] = vals[k]
         except Exception as ex:  # noqa: BLE001
@@ -103,7 +143,7 @@ def _worker(args):
     return res
 
 
-def replay(recs, header, backend="numpy", nproc=16, batch=12, seed=0, workdir=None):
+def replay(recs, header, backend="numpy", nproc=16, batch=12, seed=0, workdir=None, schemes=None):
     workdir = str(workdir or tlc.scratch_root())
     rnd = random.Random(seed)
     by_delta = {}
@@ -116,13 +156,13 @@ def replay(recs, header, backend="numpy", nproc=16, batch=12, seed=0, workdir=No
         for i in range(0, len(lst), batch):
             g = lst[i:i + batch]
             stiff_idx = set(j for j in range(len(g)) if rnd.random() < 0.5)
-            jobs.append((g, header, delta, stiff_idx, backend, workdir))
+            jobs.append((g, header, delta, stiff_idx, backend, workdir, schemes))
     stats = {"templates": len(recs), "models": len(jobs), "compared": 0, "undefined": 0, "errors": 0, "mismatches": 0,
              "guard_decisions": {"euler_branch": 0, "rl_branch": 0}}
     bad = []
     with cf.ProcessPoolExecutor(max_workers=nproc) as ex:
         for job, out in zip(jobs, ex.map(_worker, jobs)):
-            group, _, delta, stiff_idx, _, _ = job
+            group, _, delta, stiff_idx, _, _, _ = job
             for (i, ename, msg) in out["errors"]:
                 r = group[i]
                 # in the domain only if some grid point has a defined expectation
@@ -138,6 +178,8 @@ def replay(recs, header, backend="numpy", nproc=16, batch=12, seed=0, workdir=No
                     g = got[key]
                     for sc, v in (("explicit_euler", exp["euler"]), ("generalized_rush_larsen", exp["grl"]),
                                   ("hybrid_rush_larsen", exp["grl"] if is_stiff else exp["euler"])):
+                        if sc not in g:
+                            continue
                         if v["k"] == "u":
                             stats["undefined"] += 1
                             continue
